@@ -462,6 +462,10 @@ impl Prop for C12 {
         if case.use_fd0 {
             _exclusive = Some(crate::fds::FD0_LOCK.write().unwrap_or_else(|e| e.into_inner()));
             _shared = None;
+            // number 0 is normally occupied (stdin or a placeholder), so that no other run ever gets it;
+            // free it for this run only
+            // SAFETY: we hold the descriptor table exclusively; nothing reads stdin in this program.
+            unsafe { libc::close(0) };
         } else {
             _shared = Some(crate::fds::FD0_LOCK.read().unwrap_or_else(|e| e.into_inner()));
             _exclusive = None;
@@ -469,8 +473,7 @@ impl Prop for C12 {
         if case.real_socket {
             let out = exec_real_socket(&case, &m, sched, st);
             if case.use_fd0 {
-                // SAFETY: see below.
-                unsafe { libc::close(0) };
+                crate::fds::reoccupy_fd0();
             }
             return out;
         }
@@ -714,8 +717,7 @@ impl Prop for C12 {
         drop(sh);
         if case.use_fd0 {
             // a library that leaked descriptor 0 must not poison later runs (we hold the table exclusively)
-            // SAFETY: number 0 can only be the descriptor this run handed out, or already closed.
-            unsafe { libc::close(0) };
+            crate::fds::reoccupy_fd0();
         }
         Ok(RunOut { violation: result, nontrivial, sig: sig.get(), trace_hash: sig.get() })
     }
